@@ -84,6 +84,14 @@ func c15baseTypes(num func(t string, vals []string) c15type) []c15type {
 				}
 				return "s", s
 			}},
+		// enum names are arbitrary strings (RFC 7950 §9.6.4): quotes, a backslash, blanks, non-ASCII
+		{"enum-odd", "enumeration { enum 'say \"hi\"' { value 3; } enum 'b\\s'; enum \"é x\"; }", func(r *core.Rng) string { return core.Pick(r, []string{"say \"hi\"", "b\\s", "é x"}) },
+			func(s string, ids bool) (string, string) {
+				if ids {
+					return "n", map[string]string{"say \"hi\"": "3", "b\\s": "4", "é x": "5"}[s]
+				}
+				return "s", s
+			}},
 		{"bits", "bits { bit b0 { position 0; } bit b1 { position 1; } bit b5 { position 5; } }", func(r *core.Rng) string { return core.Pick(r, []string{"b0", "b0 b5", "b1 b5", ""}) }, func(s string, _ bool) (string, string) { return "s", s }},
 		{"identityref", "identityref { base idb; }", func(r *core.Rng) string { return core.Pick(r, []string{"d1", "d2"}) }, func(s string, _ bool) (string, string) { return "s", s }},
 		{"binary", "binary", func(r *core.Rng) string { return core.Pick(r, []string{"aGVsbG8gd29ybGQ=", "+//+", "/+8=", "AA==", "Zm9v"}) }, func(s string, _ bool) (string, string) { return "s", s }},
